@@ -132,7 +132,9 @@ func c18(c *Ctx) {
 
 	// random strings (ASCII and non-ASCII) for the substring family and the slicers (ASCII)
 	r := c.Rng
-	alph := []string{"a", "b", " ", "x", "-", "Z", "é", "日", "😀", "\"", "\\", "."}
+	// … including combining marks, so that base letter + mark, precomposed letter and singletons
+	// (Angstrom / Ohm sign) occur side by side: the tests are byte-wise, not up to normalisation
+	alph := []string{"a", "b", " ", "x", "-", "Z", "é", "e", "\u0301", "\u030a", "A", "\u00c5", "\u212b", "日", "😀", "\"", "\\", "."}
 	randStr := func(maxRunes int, asciiOnly bool) string {
 		var sb strings.Builder
 		for i, n := 0, r.Intn(maxRunes+1); i < n; i++ {
